@@ -167,7 +167,8 @@ def random_history(rng, hid, steps, n_aircraft, with_time=True, with_serde=True)
         elif r < 0.92 and with_time:
             out.append({"op": "tick", "secs": rng.choice((1, 1, 2, 5))})
         elif r < 0.97 and with_time:
-            out.append({"op": "prune", "T": rng.choice((0, 1, 2, 3, 5, 120))})
+            # (2e9 + k stands for u64::MAX - k: "never expire")
+            out.append({"op": "prune", "T": rng.choice((0, 1, 2, 3, 5, 120, 120, 86400, 2000000000, 2000000001, 1 << 30))})
         elif with_serde:
             out.append({"op": "serde"})
     return {"id": hid, "rx": [round(rx[0] * 1e6), round(rx[1] * 1e6)], "range_m": rng_m, "steps": out}
